@@ -1094,6 +1094,16 @@ def extend_safe(f, fa, iv, b, args, cap):
                 others = [a for a in d if a not in lens and a not in caps]
                 if len(others) == 1 and d[others[0]] == 1:
                     n = others[0]
+                    if n.op == "len":
+                        # the measured quantity is the appended slice itself: len + slice.len() <= capacity
+                        y_ = n.args[0]
+                        while y_.op in ("ref", "mem", "memval"):
+                            y_ = y_.args[0]
+                        x_ = args[1]
+                        while x_.op in ("ref", "mem", "memval"):
+                            x_ = x_.args[0]
+                        if y_ is x_:
+                            return True, "dominated by len + slice.len() <= capacity for the very slice that is appended"
                     if n.op == "call" and n.args[0] == "core::char::methods::<impl char>::len_utf8":
                         ch = n.args[1][0]
                         sl = args[1]
@@ -1108,6 +1118,30 @@ def extend_safe(f, fa, iv, b, args, cap):
                             if y.op == "call" and y.args[0] == "core::char::methods::<impl char>::encode_utf8" and y.args[1][0] is ch:
                                 return True, "dominated by len + len_utf8(ch) <= capacity; slice = encode_utf8(ch) (len_utf8 bytes)"
                         return False, "guard found but the slice is not encode_utf8 of the measured char: %s" % show(sl, names)
+    # second guard shape:  slice.len() <= capacity() - len()   (the free space computed first; the subtraction cannot wrap: len <= capacity)
+    sl = args[1]
+    x = sl
+    while x.op in ("ref", "mem", "memval"):
+        x = x.args[0]
+    for c, fc in iv.facts(b):
+        if c[0] == "le" and c[2] <= 0:
+            d = dict(c[1])
+            subs = [a for a in d if a.op == "bin" and a.args[0] == "Sub" and d[a] == -1
+                    and a.args[1].op == "call" and a.args[1].args[0] in libmodel.CAP_FNS and a.args[1].args[1][0] is cur
+                    and a.args[2].op == "call" and a.args[2].args[0] in libmodel.LEN_FNS and a.args[2].args[1][0] is cur]
+            lns = [a for a in d if a.op == "len" and d[a] == 1]
+            if len(d) == 2 and subs and lns:
+                y = lns[0].args[0]
+                while y.op in ("ref", "mem", "memval"):
+                    y = y.args[0]
+                if y is x:
+                    if x.op == "call" and x.args[0] == "core::str::<impl str>::as_bytes":
+                        z = x.args[1][0]
+                        while z.op in ("ref", "mem", "memval"):
+                            z = z.args[0]
+                        if z.op == "call" and z.args[0] == "core::char::methods::<impl char>::encode_utf8":
+                            return True, "dominated by encode_utf8(ch).len() <= capacity - len; slice = encode_utf8(ch)"
+                    return True, "dominated by slice.len() <= capacity - len (same slice)"
     return False, "no dominating len + n <= capacity guard"
 
 
